@@ -443,6 +443,7 @@ func c05searchLoops(c *core.Check) {
 	_ = info
 	c.Min("include-search-complete", 2)
 	c05typedefSource(c)
+	c05enumIndex(c)
 }
 
 // enclosingBlock returns the statement list of the innermost block that directly contains target.
